@@ -7,6 +7,7 @@ SCPI_ExprChannelListEntry on the text between the parentheses; `Spec.ExprList` i
 import ScpiVerif.Model.Expr
 import ScpiVerif.Spec.ExprList
 import ScpiVerif.Lemmas.ExprList
+import ScpiVerif.Lemmas.ExprListMalformed
 
 namespace ScpiVerif.Props.C19
 open ScpiVerif ScpiVerif.Lexer ScpiVerif.Spec.ExprList
@@ -56,9 +57,26 @@ theorem channel_error_pushes (body : Bytes) (i cap : Nat) :
     (r.res = .error → r.pushed = [-170]) ∧ (r.res ≠ .error → r.pushed = []) :=
   Lemmas.ExprList.channel_error_pushes body i cap
 
+/-- a malformed channel list is never answered with a silent NO_MORE: for content that is not a well-formed channel
+list, every index gets OK (an entry of the well-formed prefix) or ERROR — and ERROR comes with -170 (channel_error_pushes) -/
+theorem channel_malformed_never_no_more (body : Bytes) (i cap : Nat) (h : parseChanList body = none) :
+    (channelListEntry body i cap).res ≠ .noMore :=
+  Lemmas.ExprList.channel_malformed_never_no_more body i cap h
+
+/-- the NO_MORE clause made exact, for ANY expression content: NO_MORE is returned precisely when the content is a
+well-formed channel list and the index is at or beyond its number of entries (`channel_entry` is the ← direction) -/
+theorem channel_no_more_iff (body : Bytes) (i cap : Nat) :
+    (channelListEntry body i cap).res = .noMore ↔ ∃ l, parseChanList body = some l ∧ l.length ≤ i :=
+  Lemmas.ExprList.channel_no_more_iff body i cap
+
 -- non-vacuity: "1,2:5,7" and "@1!2:3!4,5!6"
 example : (parseNumList [49,44,50,58,53,44,55]).map (·.length) = some 3 := by decide
 example : (numericListEntry [49,44,50,58,53,44,55] 1).res = .ok := by decide
 example : (channelListEntry [64,49,33,50,58,51,33,52,44,53,33,54] 0 2).from_ = [1, 2] := by decide
+-- malformed: "@1,,2" (index 0 is the OK prefix entry, index 1 and beyond are ERROR), "@1!2:3" (dimension mismatch), "1,2" (no '@')
+example : parseChanList [64,49,44,44,50] = none ∧ (channelListEntry [64,49,44,44,50] 0 2).res = .ok ∧
+    (channelListEntry [64,49,44,44,50] 1 2).res = .error ∧ (channelListEntry [64,49,44,44,50] 3 2).res = .error := by decide
+example : parseChanList [64,49,33,50,58,51] = none ∧ (channelListEntry [64,49,33,50,58,51] 0 2).res = .error := by decide
+example : parseChanList [49,44,50] = none ∧ (channelListEntry [49,44,50] 0 2).res = .error := by decide
 
 end ScpiVerif.Props.C19
